@@ -1,14 +1,14 @@
 SPECIFICATION WSpec
 CONSTANTS
-  Threads = {1, 2}
-  Slots = {1, 2}
+  Threads = {1, 2, 3}
+  Slots = {1}
   Pools = {"SP1"}
-  Strs = {1, 2, 3}
+  Strs = {1, 2}
   ConstStrs <- ConstPool1
   Grams = {1}
   Grams0 = {}
   RegLen0 = 1
-  ProgChoices <- WQuick
+  ProgChoices <- Singles
   NoLock = {}
   LazyMap = FALSE
 INVARIANT Emit
